@@ -3,6 +3,7 @@ package genlab
 import (
 	"encoding/json"
 	"fmt"
+	"go/build"
 	"os"
 	"path/filepath"
 	"regexp"
@@ -20,7 +21,7 @@ import (
 var (
 	collPaths = []string{"/a-b", "/a_b", "/A-B", "/ab", "/a/b", "/a.b", "/things", "/things/{id}", "/Things"}
 	collIDs   = []string{"getA", "GetA", "get-a", "get_a", "geta", "listThings", "list_things", "ListThings", "x"}
-	collDefs  = []string{"a-b", "a_b", "AB", "ab", "Ab", "thing", "Thing", "THING", "other"}
+	collDefs  = []string{"a-b", "a_b", "AB", "ab", "Ab", "thing", "Thing", "THING", "other", "build_sparc", "agentZos", "thing_linux", "probe_test", "unit_nacl", "cpu_riscv"}
 	collMeths = []string{"get", "post", "put", "delete"}
 )
 
@@ -237,6 +238,24 @@ func CheckC08(run *ev.Run) {
 			b, _ := os.ReadFile(f)
 			for _, g := range rxTypeDecl.FindAllStringSubmatch(string(b), -1) {
 				types[g[1]] = true
+			}
+		}
+		// a generated file that the go tool leaves out on some platform is a definition dropped from the compiled package
+		{
+			ctx := build.Default
+			ctx.GOOS, ctx.GOARCH, ctx.CgoEnabled = "verifos", "verifarch", false
+			ctx.BuildTags, ctx.ToolTags, ctx.ReleaseTags = nil, nil, nil
+			if pk, ierr := ctx.ImportDir(filepath.Join(target, "models"), 0); ierr == nil || pk != nil {
+				var ignored []string
+				if pk != nil {
+					ignored = append(ignored, pk.IgnoredGoFiles...)
+					ignored = append(ignored, pk.TestGoFiles...)
+				}
+				if len(ignored) > 0 {
+					st["definitions-left-out-by-go-build"]++
+					replay["ignored_files"] = ignored
+					run.Deviation("dropped:file-left-out-by-go-build", fmt.Sprintf("generation succeeds but go build leaves out %v (file-name build constraint): the definitions in them are missing from the compiled package on other platforms", ignored), replay)
+				}
 			}
 		}
 		if len(defs) > 0 && (files < len(defs) || len(types) < len(defs)) {
